@@ -114,6 +114,10 @@ class S(object):
         return a, b
 
     def _bin(self, other, f, swap=False):
+        if isinstance(other, float) and (other != other or other in (float('inf'), float('-inf'))):
+            # non-finite operand (np.nan / np.inf markers such as "no Lipschitz constant"): the result is
+            # "not a finite number"; only used for values about which nothing is claimed
+            return float('nan')
         if isinstance(other, complex):
             other = C.lift(other)
             a, b = (other, C.lift(self)) if swap else (C.lift(self), other)
@@ -644,7 +648,7 @@ class Lower(object):
     """
 
     def __init__(self, pc=()):
-        self.pc = list(pc)
+        self.pc = pc if isinstance(pc, list) else list(pc)     # shared (live) with the State's path condition
         self.memo = {}
         self.vars = {}
         self.atoms = {}      # key -> scalar
@@ -761,13 +765,17 @@ class Lower(object):
     def _all_equal(self, xs, ys):
         conj = []
         for x, y in zip(xs, ys):
+            if isinstance(x, (S, C)) != isinstance(y, (S, C)):
+                return False
             conj.append(sc_eq(x, y).t)
-        s = z3.Solver()
-        s.set('timeout', 2000)
-        s.add(*self.pc)
-        s.add(*side_conditions())
-        s.add(z3.Not(z3.And(*conj)))
-        return s.check() == z3.unsat
+        goal = z3.simplify(z3.And(*conj))
+        if z3.is_true(goal):
+            return True
+        if z3.is_false(goal):
+            return False
+        from . import vc
+        v = vc.prove(list(self.pc), side_conditions(), goal, quick=True)
+        return v.status == 'proved'
 
 
 def pw_apply(fn, a):
